@@ -1074,6 +1074,11 @@ class _ProtocolGraphWalker:
         new_shallow = self.shallow - self.client_shallow
         unshallow = self.unshallow = not_shallow & self.client_shallow
 
+        # Commits the client holds only shallowly remain cut points: a "have"
+        # for one of them (or a descendant) must not be taken to mean that the
+        # client has their ancestors.
+        self.shallow.update(self.client_shallow - unshallow)
+
         self.update_shallow(new_shallow, unshallow)
 
     def update_shallow(
